@@ -169,7 +169,10 @@ def r2(ctx):
     allt = bm.term(kw["all_log_likelihood"])
     for f, fn in (("overall_log_likelihood", "numpy.sum"), ("overall_log_likelihood_mean", "numpy.mean"), ("overall_log_likelihood_median", "numpy.median")):
         t = bm.term(kw[f])
-        ok = isinstance(t, App) and t.fn == fn and t.args == (allt,) and not t.kw
+        arg0 = t.args[0] if isinstance(t, App) and len(t.args) == 1 else None
+        if isinstance(arg0, App) and arg0.fn in ("numpy.asarray", "numpy.array") and len(arg0.args) == 1 and not arg0.kw:
+            arg0 = arg0.args[0]                  # the same numbers as an array
+        ok = isinstance(t, App) and t.fn == fn and arg0 == allt and not t.kw
         ctx.check(ok, ml, f"`{f}` = {fn.split('.')[1]} of exactly the list stored as all_log_likelihood", role=f"aggregate:{f}",
                   expected=f"{fn}(all_log_likelihood)", found=str(t)[:140])
     per = [x for x in tm.subterms(allt) if isinstance(x, App) and x.fn == per_cluster_helper(ana).qualname]
